@@ -50,6 +50,10 @@ fn new_rt() -> tokio::runtime::Runtime {
 
 /// class 0/1/2 and, when accepted, the configuration
 fn load(rt: &tokio::runtime::Runtime, text: &str) -> (u64, Option<SharedConfig>, String) {
+    if std::env::var_os("C19_TRACE").is_some() {
+        // debugging aid: the document about to be loaded, unbuffered (to find a case that exhausts memory)
+        eprintln!("{}", text.chars().take(400).collect::<String>().replace('\n', "\\n"));
+    }
     let _ = rt;
     match catch(|| config::verif_load_config_from_string(text)) {
         None => (2, None, last_panic()),
@@ -650,6 +654,13 @@ fn scalar_doc(p: u64, st: &str) -> String {
 ///  7 RA prefix     len
 ///  8 pref64        len
 fn scalar_case(p: u64, st: &str, stats: &mut Stats) -> Toks {
+    if let Some((w, a, b)) = screen(&scalar_doc(p, st)) {
+        // e.g. `addresses: ["203.0.113.0/+2"]`: not run, known-finding class 1
+        let mut t = Toks::new();
+        t.n(6).bytes(scalar_doc(p, st).as_bytes()).n(w).n(a).n(b);
+        stats.bump("scalar.not-run-huge-expansion");
+        return t;
+    }
     let mut t = Toks::new();
     t.n(4).n(p).n(st.chars().count() as u64);
     for c in st.chars() {
